@@ -5,6 +5,7 @@ package c11
 import (
 	"errors"
 	"fmt"
+	"math"
 	"sort"
 	"strings"
 
@@ -30,7 +31,7 @@ func init() {
 	})
 }
 
-var layouts = []string{"uniform", "clustered", "collinear", "same-centre", "duplicates", "points", "nested", "overlap", "decimal", "float"}
+var layouts = []string{"uniform", "clustered", "collinear", "same-centre", "duplicates", "points", "nested", "overlap", "decimal", "float", "huge"}
 
 func q(r *run.Rng, lo, hi int) float64 { // quarter-integer in [lo,hi]
 	return float64(r.Range(lo*4, hi*4)) / 4
@@ -83,6 +84,15 @@ func genItems(r *run.Rng, layout string, n int) []rtree.BulkItem {
 				if b.MaxY < b.MinY {
 					b.MaxY = b.MinY
 				}
+			}
+		case "huge": // finite boxes whose squared distances overflow float64 (magnitudes 1e150..1e300, both signs)
+			mag := func() float64 {
+				return (r.Float64()*2 - 1) * math.Pow(10, float64(r.Range(150, 300)))
+			}
+			x0, y0 := mag(), mag()
+			b = rtree.Box{MinX: x0, MinY: y0, MaxX: x0 + math.Abs(mag())/2, MaxY: y0 + math.Abs(mag())/2}
+			if r.Chance(1, 4) {
+				b.MaxX, b.MaxY = b.MinX, b.MinY
 			}
 		case "float": // arbitrary 53-bit mantissas
 			x0, y0 := r.Float64()*200-100, r.Float64()*200-100
@@ -272,6 +282,24 @@ func oneCase(k *run.K, layout string, n int, nq int, allK bool) {
 			}
 		}
 
+		// --- priority search, layouts whose distances are not exact in float64 (or overflow): what does not
+		// depend on the arithmetic - every record exactly once, and Nearest finds a record iff there is one
+		if !exactLayout(layout) && (qi < 4 || qi%3 == 0) {
+			var order []int
+			err := t.PrioritySearch(qb, func(id int) error { order = append(order, id); return nil })
+			s := append([]int(nil), order...)
+			sort.Ints(s)
+			complete := err == nil && len(s) == n
+			for i := range s {
+				if s[i] != i {
+					complete = false
+				}
+			}
+			k.Check("prio-complete", complete, "PrioritySearch(%v) n=%d layout=%s visited %d records (each must be visited exactly once) err=%v", qb, n, layout, len(order), err)
+			id, found := t.Nearest(qb)
+			k.Check("nearest", found == (n > 0) && (!found || (id >= 0 && id < n)), "Nearest(%v) = %d,%v on a tree of %d records (layout %s)", qb, id, found, n, layout)
+			k.Count("priority_searches_inexact_layouts", 1)
+		}
 		// --- priority search
 		if exactLayout(layout) && (qi < 4 || qi%3 == 0) {
 			var order []int
@@ -383,7 +411,7 @@ func oneCase(k *run.K, layout string, n int, nq int, allK bool) {
 	}
 }
 
-func exactLayout(l string) bool { return l != "decimal" && l != "float" }
+func exactLayout(l string) bool { return l != "decimal" && l != "float" && l != "huge" }
 
 func positions(r *run.Rng, total int, all bool) []int {
 	if all || total <= 6 {
